@@ -160,6 +160,9 @@ LeafWhys(c, lf) ==
     IF res.kind = "err" /\ r.len >= 1 /\ info.A >= 1 /\ lf.nd > 0 /\ lf.nd < c.maxTrials * r.len
       THEN "P:C13:error-for-a-recipe-that-can-be-honoured-before-the-attempts-were-used-up" ELSE "ok",
     IF res.kind = "ok" /\ (r.len < 1 \/ info.A = 0) THEN "P:C13:password-for-a-recipe-that-cannot-be-honoured" ELSE "ok",
+    \* the candidates are known from the index path: giving up although one of them satisfied the recipe is a failure without cause
+    IF res.kind = "err" /\ lf.unann = 0 /\ lf.trunc = 0 /\ lf.left = 0 /\ ex.kind = "extra-draws" /\ r.len >= 1 /\ lf.nd <= c.maxTrials * r.len
+      THEN "P:C13:gave-up-although-a-candidate-it-drew-satisfied-the-recipe" ELSE "ok",
     IF lf.unann > 0 THEN "S:random-source-read-without-an-announced-bounded-draw" ELSE "ok",
     IF lf.left > 0 THEN "S:announced-draw-did-not-read-the-source" ELSE "ok",
     \* implementation-shaped: the CharGen machine along the same index path
@@ -182,6 +185,9 @@ EndWhys(c) ==
     IF nleaf # c.nleaves THEN "H:leaf-count" ELSE "ok",
     IF DOMAIN acc # {} /\ cutW = 0 /\ Cardinality(Weights) # 1 THEN "P:C02:valid-strings-are-not-equally-likely" ELSE "ok",
     IF DOMAIN acc # {} /\ cutW = 0 /\ Cardinality(DOMAIN acc) # CountValidInt(r) THEN "P:C02:some-string-the-recipe-allows-is-never-returned" ELSE "ok",
+    \* Alphabet() = exactly the characters that can appear: without requirements every one of them occurs in some password of a complete tree
+    IF DOMAIN acc # {} /\ cutW = 0 /\ info.live = {} /\ r.len >= 1 /\ UNION {SeqSet(s) : s \in DOMAIN acc} # info.aset
+      THEN "P:C03:Alphabet()-lists-a-character-that-no-password-can-contain" ELSE "ok",
     \* C06: no output likelier than 2^-E:  E <= log2(den / maxw); equality when uniform
     IF DOMAIN acc # {} /\ c.ent.k \notin {"panic"} /\
        ~(LET N == FromInt(c.denInt \div MaxW) IN    \* floor(den/maxw) <= 1/pmax ; exact when maxw | den
